@@ -139,6 +139,10 @@ def rule_window(ctx):
     ok_s = bool(ss) and norm(ss[0].args[0]) == "self.pc1_proj" and norm(ss[0].args[1]).replace(" ", "") in ("np.array([s_l,s_u])", "[s_l,s_u]")
     rets = [s for s in hflow.stmts if isinstance(s, ast.Return)]
     ok_r = bool(rets) and norm(rets[0].value).replace(" ", "").startswith("(inds[0],inds[1]")
+    # the returned bounds are the searchsorted results themselves (i_u is an EXCLUSIVE bound and may equal n)
+    if ok_r and ss:
+        ds_ = hflow.defs("inds", rets[0])
+        ok_r = len(ds_) == 1 and isinstance(ds_[0], ast.Assign) and ds_[0].value is ss[0]
     ctx.ob("BMCI.__find_hits.search", ok_s and ok_r, "searchsorted: %s; return %s" % (norm(ss[0]) if ss else None, norm(rets[0].value) if rets else None),
            "(i_l, i_u) = searchsorted(sorted projections, [s_l, s_u])", node=ss[0] if ss else h.node, func=h)
 
@@ -289,10 +293,15 @@ def rule_weights(ctx):
            witness=None if v else info)
     g = ctx.func(BM, "BMCI.__init__")
     S = _self_assigns(g)
-    inv = S.get("s_o_inv", [None])[-1]
+    invs = S.get("s_o_inv", [])
+    inv = invs[-1] if invs else None
     so = S.get("s_o", [None])[-1]
-    ok = inv is not None and norm(inv.value) in ("np.linalg.inv(self.s_o)", "np.linalg.inv(%s)" % g.params[3]) and so is not None and norm(so.value) == g.params[3]
-    ctx.ob("BMCI.__init__.s_o_inv", ok, "self.s_o_inv = %s; self.s_o = %s" % (norm(inv.value) if inv else None, norm(so.value) if so else None),
+    ok = bool(invs) and all(norm(i_.value) in ("np.linalg.inv(self.s_o)", "np.linalg.inv(%s)" % g.params[3]) for i_ in invs) \
+        and so is not None and norm(so.value) == g.params[3]
+    if len(invs) > 1:
+        inv = [i_ for i_ in invs if norm(i_.value) not in ("np.linalg.inv(self.s_o)", "np.linalg.inv(%s)" % g.params[3])][:1] or [inv]
+        inv = inv[0]
+    ctx.ob("BMCI.__init__.s_o_inv", ok, "self.s_o_inv = %s (%d assignment(s)); self.s_o = %s" % (norm(inv.value) if inv else None, len(invs), norm(so.value) if so else None),
            "inverse of the covariance passed to the constructor", node=inv or g.node, func=g)
 
 
